@@ -217,7 +217,10 @@ where
                 next: [EdgeIndex::end(); 2],
             });
             node_pos = hole_pos + 1;
-            debug_assert_eq!(nodes.len(), node_pos);
+            if nodes.len() != node_pos {
+                // more positions before this hole than nodes left to fill them
+                return Err(invalid_hole_err(hole_pos));
+            }
         }
         nodes.extend(compact_nodes);
 
